@@ -2,12 +2,17 @@
 
 PROPS = {}
 
-# translator groups whose content is ALSO tied by a correspondence run of every property that uses them (spell: the
-# statement correspondence renders every operator / function; derive: the generated prepare() is observed on one derived
-# type per punctuation character for every quote).  When the source no longer fits the translator's Rust subset, the last
-# committed generated file stays in place, the run says so in its evidence, and the correspondence decides alone; a failure of
-# any other group is a broken obligation.
-SOFT_GROUPS = {"spell", "derive"}
+# Every translated table is ALSO tied to the code by the correspondence run of each property that uses it (tokenizer
+# differential, escape / quote round trips, value pools, take / clear histories, the rustc probe, the DDL engine and grammar
+# stages, the statement correspondence, derived types x quotes).  When the source no longer fits a translator's small Rust
+# subset (a harmless rewrite does that as easily as a harmful one), the committed table is restored, the run says so in its
+# evidence, the correspondence of that run is escalated to the thorough tier, and its verdict decides.  When the translator
+# succeeds, the theorems are re-checked against the regenerated table as before, and a proof that no longer checks is a
+# broken obligation.
+GROUP_FILES = {"token": ["Token.lean"], "escape": ["Escape.lean"], "quote": ["Quote.lean"], "hashable": ["Hashable.lean"],
+               "take": ["Take.lean"], "types": ["Types.lean", "types.list"], "coltypes": ["ColTypes.lean"],
+               "derive": ["ValidIden.lean"], "spell": ["Spell.lean"]}
+SOFT_GROUPS = set(GROUP_FILES)
 
 PROPS["C16"] = dict(
     groups=["token"],
